@@ -22,7 +22,14 @@ def make_jobs(inst, rng, n):
         if i % 10 == 9:
             rp = {"dry_run": "yes"}
         persist = {}
-        if i % 3 == 1:
+        objroots = sorted(t for t, e in inst.const["tests"].items() if e["objroot"])
+        if i % 8 == 5 and objroots:
+            # an object creation whose pre-step never succeeds, with retries enabled
+            rp = {"max_tries": str(rng.choice([2, 3]))}
+            if rng.random() < 0.5:
+                rp["stop_status"] = "pass"
+            persist = {"%s|pre" % rng.choice(objroots): rng.choice(["FAIL", "ERROR"])}
+        elif i % 3 == 1:
             # persistent failure (or never-reported result) of one test or of one creation step
             t = rng.choice(sorted(inst.const["tests"]))
             kind = "pre" if inst.const["tests"][t]["objroot"] and rng.random() < 0.5 else "main"
@@ -42,12 +49,17 @@ def signature(inst, res, f):
     retries = int(float(rp.get("max_tries", 1))) > 1
     pre_uids = [(e["w"], e["t"], e["uid"]) for e in res["events"] if e["a"] == "prestart"]
     reuse = len(pre_uids) != len(set(pre_uids))
+    # the known livelock F-C02-1 is about a RETRY of an object creation (a main try was recorded before the repeated pre-step);
+    # a creation whose pre-step is repeated although no main try ever happened is something else
+    spun = {t for (w, t, u) in pre_uids if pre_uids.count((w, t, u)) > 1}
+    tried = {e["t"] for e in res["events"] if e["a"] == "start"}       # main tries of the creation node by any worker
+    untried = bool(spun) and not (spun & tried)
     if d[0] == "outcome":
         creation = any(e["a"] == "prestart" for e in res["events"][-300:])
-        return "outcome=%s retries=%s creation-pre-step-spinning=%s pre-step-uid-reused=%s" % (d[1], retries, creation, reuse)
+        return "outcome=%s retries=%s creation-pre-step-spinning=%s pre-step-uid-reused=%s%s" % (d[1], retries, creation, reuse, " without-any-main-try" if untried else "")
     if d[0] == "unknown-recorded":
         return "unknown-recorded lost-result=%s" % bool(res["job"].get("lost"))
-    return "%s retries=%s pre-step-uid-reused=%s" % (d[0], retries, reuse)
+    return "%s retries=%s pre-step-uid-reused=%s%s" % (d[0], retries, reuse, " without-any-main-try" if untried else "")
 
 
 def describe(inst, res, f):
